@@ -84,7 +84,7 @@ theorem nbrs_get {e : Env F} {s : State F} (hc : SrchConst e s) (k : Nat) (hk : 
   have h2 : k < (s.ia "neighbor_xs").length := by omega
   refine ⟨h1, h2, ?_⟩
   have : e.nbrs[k] = ((s.ia "neighbor_ys").zip (s.ia "neighbor_xs"))[k]'(by rw [← hn]; exact hk) := by
-    congr 1 <;> simp [hn]
+    congr 1
   rw [this, List.getElem_zip]
   simp [List.getD_eq_getElem?_getD, h1, h2]
 
@@ -199,7 +199,7 @@ theorem rx_body (e : Env F) (u : Cell) (hu : inside e.h e.w u = true) (mst : ASt
           all_goals first
             | rfl
             | keep_tac
-            | (simp [setS_apply, flDist, sqDist, hinv.py, hinv.px]; done)
+            | simp [setS_apply, flDist, sqDist, hinv.py, hinv.px]
 
 /-- **the neighbour loop `for y, x in zip(neighbor_ys, neighbor_xs)` is `nbrs.foldl (relax e u)`** -/
 theorem rx_loop (e : Env F) (u : Cell) (hu : inside e.h e.w u = true) (mst : AStar.St F) (st : State F)
